@@ -51,7 +51,7 @@ func vfNewCacheRun(c *kit.Case, limit int, expire time.Duration) (*vfCacheRun, f
 	}
 	cache.timingWheel = tw
 	cr := &vfCacheRun{c: c, cache: cache, tk: tk, tw: tw, baseline: vfGoroutines + 1, interval: old.interval, limit: limit, expire: expire,
-		model: map[string]*vfEntry{}, gone: map[string]string{}, h: 14695981039346656037}
+		model: map[string]*vfEntry{}, gone: map[string]string{}, h: 14695981039346656037, r: c.R}
 	return cr, func() {
 		tk.slow.Store(false)
 		tw.Stop()
@@ -72,15 +72,14 @@ func (cr *vfCacheRun) vfSizeCheck() {
 }
 
 func (cr *vfCacheRun) vfSet(k string, e time.Duration, withExpire bool) {
-	cr.nextV++
-	v := cr.nextV
+	v := cr.vfNewVal(k)
 	if withExpire {
-		cr.op(fmt.Sprintf("SetWithExpire(%s,%d,%v)", k, v, e))
-		cr.cache.SetWithExpire(k, v, e)
+		cr.op(fmt.Sprintf("SetWithExpire(%s,%v,%v)", k, v, e))
+		cr.cache.SetWithExpire(k, v.v, e)
 	} else {
 		e = cr.expire
-		cr.op(fmt.Sprintf("Set(%s,%d)", k, v))
-		cr.cache.Set(k, v)
+		cr.op(fmt.Sprintf("Set(%s,%v)", k, v))
+		cr.cache.Set(k, v.v)
 	}
 	cr.mset(k, v, e)
 }
@@ -91,13 +90,14 @@ func (cr *vfCacheRun) vfGet(k string) {
 	e, wok := cr.model[k]
 	switch {
 	case wok && !ok:
-		cr.viol("C16/cache/get/live-key-missing", fmt.Sprintf("Get(%s) missed; the key holds %v and is neither deleted, evicted nor expired", k, e.val))
+		cr.viol("C16/cache/get/live-key-missing", fmt.Sprintf("Get(%s) missed; the key holds %v and is neither deleted, evicted nor expired", k, e.cv))
 	case !wok && ok:
-		cr.viol("C16/cache/get/dead-key-present/"+cr.why(k), fmt.Sprintf("Get(%s) returned %v although the key is %s", k, got, cr.why(k)))
-	case wok && got != e.val:
-		cr.viol("C16/cache/get/not-latest-value", fmt.Sprintf("Get(%s) returned %v, latest value set is %v", k, got, e.val))
+		cr.viol("C16/cache/get/dead-key-present/"+cr.why(k), fmt.Sprintf("Get(%s) returned %s although the key is %s", k, vfDescr(got), cr.why(k)))
+	case wok && !vfSame(got, e.val):
+		cr.viol("C16/cache/get/not-latest-value"+vfClassSuffix(e.cv), fmt.Sprintf("Get(%s) returned %s, latest value set is %v (reference kinds are compared by identity)", k, vfDescr(got), e.cv))
 	}
 	if wok {
+		cr.vs.compared(e.val)
 		cr.touch(k)
 	}
 }
@@ -111,41 +111,42 @@ func (cr *vfCacheRun) vfDel(k string) {
 }
 
 func (cr *vfCacheRun) vfTake(k string, fail bool) {
-	cr.nextV++
-	loadV := cr.nextV
-	cr.op(fmt.Sprintf("Take(%s, loader=>%s)", k, map[bool]string{false: fmt.Sprint(loadV), true: "error"}[fail]))
+	loadV := cr.vfNewVal(k)
+	cr.op(fmt.Sprintf("Take(%s, loader=>%s)", k, map[bool]string{false: loadV.String(), true: "error"}[fail]))
 	calls := 0
 	got, gerr := cr.cache.Take(k, func() (any, error) {
 		calls++
 		if fail {
 			return nil, vfErrLoad
 		}
-		return loadV, nil
+		return loadV.v, nil
 	})
 	e, hit := cr.model[k]
 	switch {
 	case hit:
 		cr.takeHits++
 		if calls > 0 {
-			cr.viol("C16/cache/take/loader-called-on-hit", fmt.Sprintf("Take(%s) called the loader although the key is cached with %v", k, e.val))
-		} else if gerr != nil || got != e.val {
-			cr.viol("C16/cache/take/not-latest-value", fmt.Sprintf("Take(%s) returned (%v,%v), latest value set is %v", k, got, gerr, e.val))
+			cr.viol("C16/cache/take/loader-called-on-hit", fmt.Sprintf("Take(%s) called the loader although the key is cached with %v", k, e.cv))
+		} else if gerr != nil || !vfSame(got, e.val) {
+			cr.viol("C16/cache/take/not-latest-value"+vfClassSuffix(e.cv), fmt.Sprintf("Take(%s) returned (%s,%v), latest value set is %v (reference kinds are compared by identity)", k, vfDescr(got), gerr, e.cv))
 		}
+		cr.vs.compared(e.val)
 		cr.touch(k)
 	case calls != 1:
 		cr.viol("C16/cache/take/loader-calls-on-miss", fmt.Sprintf("Take(%s) on a %s key called the loader %d times", k, cr.why(k), calls))
 	case fail:
 		cr.takeFails++
 		if gerr == nil {
-			cr.viol("C16/cache/take/load-error-swallowed", fmt.Sprintf("Take(%s): loader failed, Take returned (%v,nil)", k, got))
+			cr.viol("C16/cache/take/load-error-swallowed", fmt.Sprintf("Take(%s): loader failed, Take returned (%s,nil)", k, vfDescr(got)))
 		} else if v, ok := cr.cache.Get(k); ok { // on a correct cache this Get misses and changes nothing
-			cr.viol("C16/cache/take/failed-load-cached", fmt.Sprintf("Take(%s): the loader failed, yet the key is cached afterwards with %v", k, v))
+			cr.viol("C16/cache/take/failed-load-cached", fmt.Sprintf("Take(%s): the loader failed, yet the key is cached afterwards with %s", k, vfDescr(v)))
 		}
 	default:
 		cr.takeLoads++
-		if gerr != nil || got != any(loadV) {
-			cr.viol("C16/cache/take/wrong-result-after-load", fmt.Sprintf("Take(%s): loader returned %d, Take returned (%v,%v)", k, loadV, got, gerr))
+		if gerr != nil || !vfSame(got, loadV.v) {
+			cr.viol("C16/cache/take/wrong-result-after-load"+vfClassSuffix(loadV), fmt.Sprintf("Take(%s): loader returned %v, Take returned (%s,%v)", k, loadV, vfDescr(got), gerr))
 		}
+		cr.vs.compared(loadV.v)
 		cr.mset(k, loadV, cr.expire)
 	}
 }
@@ -284,6 +285,7 @@ func vfEvictResetHistory(c *kit.Case, r *kit.Rand, sample bool) {
 	c.Obs("wb_evictreset_model_evictions", cr.evictions)
 	c.Obs("wb_evictreset_keys_set_again_right_after_their_eviction", resets)
 	c.Obs("wb_evictreset_expiries_observed_inside_envelope", cr.expiries)
+	cr.vfValObs("wb_evictreset")
 	if slow {
 		c.Obs("wb_evictreset_histories_with_slow_wheel_loop", 1)
 	}
